@@ -1,4 +1,5 @@
 #!/bin/sh
-# stop background check/cbmc runs (run this ALONE, never inside a compound command)
-for p in $(pgrep -x cbmc) $(pgrep -f "python3 ./check") ; do kill -9 $p 2>/dev/null; done
+# stop background check/cbmc runs (run this ALONE, never inside a compound command); solvers started by cbmc (z3, cvc5,
+# kissat) are separate processes and survive their parent, so they are stopped too
+for p in $(pgrep -f "tools/run_all.sh") $(pgrep -f "python3 ./check") $(pgrep -x cbmc) $(pgrep -x z3) $(pgrep -x cvc5) $(pgrep -x kissat); do kill -9 $p 2>/dev/null; done
 echo stopped
